@@ -316,6 +316,10 @@ func defaultValueForTypeRec(schemas ast.Schemas, typeDef ast.Type, importModule 
 				if !fieldFound {
 					return
 				}
+				// a constant is set by the constructor itself: it is not one of its arguments
+				if field.Type.IsConcreteScalar() || field.Type.IsConstantRef() {
+					return
+				}
 
 				value := v
 				if field.Type.IsRef() {
